@@ -874,10 +874,14 @@ def _runaway(ans) -> bool:
     return isinstance(ans, list) and len(ans) >= 2 and ans[0] == "EXC" and ans[1] in ("TIMEOUT", "RESULT-TOO-LARGE")
 
 
-def _try(fn):
+def _try(fn, limit: float | None = None):
+    """Run a call of the real code: its result, or ["EXC", <class>] (the pair must agree on failures too), or
+    TIMEOUT when it does not come back within the limit."""
     try:
-        return fn()
-    except Exception as e:  # the pair must agree on failures too
+        return _timed(fn, QUERY_TIME_LIMIT if limit is None else limit)
+    except _QueryTimeout:
+        return list(TIMEOUT)
+    except Exception as e:
         return _canon_exc(e)
 
 
@@ -930,10 +934,7 @@ def ask(repo, tw: Twin, plan: dict, limit: float = QUERY_TIME_LIMIT) -> dict:
         if key[0] in ran_away:
             out[json.dumps(key)] = SKIPPED
             return
-        try:
-            ans = _timed(lambda: _try(fn), limit)
-        except _QueryTimeout:
-            ans = TIMEOUT
+        ans = _try(fn, limit)
         if isinstance(ans, list) and len(ans) > RESULT_SIZE_CAP:
             ans = ["EXC", "RESULT-TOO-LARGE", len(ans)]
         if _runaway(ans):
@@ -1465,6 +1466,13 @@ def gen_scenario(rng, subset, use_git: bool, size: int = 10) -> list:
 _FAIL_CAP = 3   # reported failing pairs per (scenario, class)
 
 
+def _clip(ans, n=40):
+    """Answers are stored in replay files: keep them small."""
+    if isinstance(ans, list) and len(ans) > n:
+        return ans[:n] + [f"… {len(ans) - n} more"]
+    return ans
+
+
 def checkpoint(ctx, tw: Twin, ops_so_far: list, label: str, sid: str, plan_rng, seen_cls: dict, extra_plan=None):
     import json
     plan = make_plan(tw, plan_rng, n_each=4)
@@ -1488,17 +1496,25 @@ def checkpoint(ctx, tw: Twin, ops_so_far: list, label: str, sid: str, plan_rng, 
             r.close()
         answers[name + "l"] = ask(side.ll, tw, plan)
     fresh_cls = {}
+    budget = seen_cls.setdefault("_attribution_budget", [ATTRIBUTION_BUDGET_S])
     for mode, ll in (("fresh", False), ("ll", True)):
         aNs, aAs = answers["N" + ("l" if ll else "f")], answers["A" + ("l" if ll else "f")]
-        abl = Ablation(tw, plan, ll)
+        abl = Ablation(tw, plan, ll, budget)
         stream = "pair." + mode
         for key, aN in aNs.items():
             aA = aAs.get(key)
             q0 = json.loads(key)[0]
+            if aN == SKIPPED or aA == SKIPPED:
+                continue        # a query of this kind ran away earlier in one of the passes
             ctx.count(stream, (sid, label, key), True, q0)
             if aN == aA:
                 continue
-            if ll and key in fresh_cls and answers["Nf"][key] == aN and answers["Af"][key] == aA:
+            if seen_cls.get("_unmatched", 0) >= MAX_UNMATCHED_PER_SCENARIO:
+                return answers  # enough unexplained differences in this scenario: it is abandoned
+            if _runaway(aA) and not _runaway(aN):
+                # no attribution by removal for a query that does not come back: it would run away again
+                classes, resp = ["with-accel-query-does-not-terminate"], []
+            elif ll and key in fresh_cls and answers["Nf"][key] == aN and answers["Af"][key] == aA:
                 classes, resp = fresh_cls[key]
             else:
                 classes, resp = classify(tw, abl, key, aN, aA, aNs, aAs)
@@ -1507,14 +1523,19 @@ def checkpoint(ctx, tw: Twin, ops_so_far: list, label: str, sid: str, plan_rng, 
             for cls in classes:
                 k = (mode, cls)
                 seen_cls[k] = seen_cls.get(k, 0) + 1
-                if seen_cls[k] > _FAIL_CAP and cls is not None:
+                if seen_cls[k] > _FAIL_CAP:
                     continue
+                nfail = len(ctx.oracle_failures)
+                what = (f"query does not terminate within {QUERY_TIME_LIMIT:g} s / {RESULT_SIZE_CAP} results with acceleration data present "
+                        f"(it answers without): {key[:160]}: without={str(aN)[:160]}" if _runaway(aA) and not _runaway(aN) else
+                        f"answer differs with acceleration data present ({', '.join(resp) or 'unattributed'}): "
+                        f"{key[:120]}: without={str(aN)[:160]} with={str(aA)[:160]}")
                 ctx.oracle_fail(stream, {"ops": ops_so_far, "sid": sid, "plan_seed": getattr(plan_rng, "_c14_seed", None),
                                          "extra_plan": extra_plan, "checkpoint": label, "mode": mode, "query": json.loads(key),
-                                         "without": aN, "with": aA, "responsible": resp,
-                                         "accelerators": list(tw.accel_log)},
-                                f"answer differs with acceleration data present ({', '.join(resp) or 'unattributed'}): "
-                                f"{key[:120]}: without={str(aN)[:160]} with={str(aA)[:160]}", cls)
+                                         "without": _clip(aN), "with": _clip(aA), "responsible": resp,
+                                         "accelerators": list(tw.accel_log)}, what, cls)
+                if len(ctx.oracle_failures) > nfail:
+                    seen_cls["_unmatched"] = seen_cls.get("_unmatched", 0) + 1
     if ctx.thorough or plan_rng.random() < 0.5:
         check_bitmap_entries(ctx, tw, ops_so_far, label, sid)
     return answers
@@ -1589,11 +1610,16 @@ def run_scenario(ctx, ops: list, sid: str, donor: Path | None, plan_seed: str, e
             done.append(op)
             if op[0] == "check":
                 checkpoint(ctx, tw, list(done), op[1], sid, prng, seen_cls, extra_plan)
+                if seen_cls.get("_unmatched", 0) >= MAX_UNMATCHED_PER_SCENARIO:
+                    break       # unexplained differences found: no need to drive this scenario further
                 if always_entries:
                     check_bitmap_entries(ctx, tw, list(done), op[1], sid)
             elif op[0] == "accel" and op[2] != "git":
                 try:
-                    tw.apply(op)
+                    try:
+                        _timed(lambda: tw.apply(op), 90.0)
+                    except _QueryTimeout:
+                        raise TimeoutError("writer does not terminate within 90 s") from None
                 except core.InfraError:
                     raise
                 except Exception as e:
@@ -1604,7 +1630,10 @@ def run_scenario(ctx, ops: list, sid: str, donor: Path | None, plan_seed: str, e
                     break
             else:
                 try:
-                    tw.apply(op)
+                    try:
+                        _timed(lambda: tw.apply(op), 90.0)
+                    except _QueryTimeout:
+                        raise TimeoutError("operation does not terminate within 90 s") from None
                 except core.InfraError:
                     raise
                 except Exception as e:
@@ -1672,6 +1701,9 @@ def stream_twins(ctx):
     n = ctx.budget(32, mult=6)
     donor = build_donor(ctx, use_git=True)
     for i in range(n):
+        if len(ctx.oracle_failures) >= MAX_UNMATCHED_TOTAL:
+            ctx.notes.append(f"twin stream stopped after {i} of {n} scenarios: {len(ctx.oracle_failures)} unexplained failures already")
+            break
         subset = subsets[i % len(subsets)]
         sseed = f"{ctx.seed}:{i}"
         rng = random.Random("scenario:" + sseed)
@@ -2314,6 +2346,7 @@ def run(ctx: core.Ctx):
         "packed-refs stat-identity cache: two different files never share (inode, size, mtime_ns) (idealisation)",
     ]
     _quiet()
+    _cap_reports(ctx)
     run_corpus(ctx)
     for fn in (stream_ewah, stream_cg, stream_cg_close, stream_midx, stream_gate_refs, stream_reach):
         try:
@@ -2325,6 +2358,38 @@ def run(ctx: core.Ctx):
             import traceback
             ctx.disagree(fn.__name__, {"trace": traceback.format_exc()[-1500:]}, "stream completes", f"{type(e).__name__}: {e}")
     stream_twins(ctx)
+
+
+def _cap_reports(ctx):
+    """Bound what the harness keeps when very many cases fail (a mutated codec fails on almost every generated
+    case): per (stream, class) only the first few unexplained failures / disagreements are recorded, the rest is
+    counted.  Failures explained by a known finding are only counted by core anyway."""
+    if getattr(ctx, "_c14_capped", False):
+        return
+    ctx._c14_capped = True
+    of, dg = ctx.oracle_fail, ctx.disagree
+    n_of: dict = {}
+    n_dg: dict = {}
+    dropped = ctx.extra_cov.setdefault("reports_dropped_by_cap", {})
+
+    def oracle_fail(stream, case, what, cls=None):
+        known = cls is not None and any(k.get("match", {}).get("class") == cls and k.get("match", {}).get("stream", stream) == stream
+                                        for k in ctx.known)
+        if not known:
+            k = (stream, cls)
+            n_of[k] = n_of.get(k, 0) + 1
+            if n_of[k] > 5:
+                dropped[f"oracle:{stream}:{cls}"] = n_of[k] - 5
+                return
+        return of(stream, case, what, cls)
+
+    def disagree(stream, case, model, impl, variant="impl"):
+        n_dg[stream] = n_dg.get(stream, 0) + 1
+        if n_dg[stream] > 8:
+            dropped[f"disagree:{stream}"] = n_dg[stream] - 8
+            return
+        return dg(stream, case, model, impl, variant)
+    ctx.oracle_fail, ctx.disagree = oracle_fail, disagree
 
 
 def _quiet():
@@ -2342,6 +2407,7 @@ def search(ctx: core.Ctx):
     in a way no known finding explains."""
     import random
     _quiet()
+    _cap_reports(ctx)
     for fn in (stream_ewah, stream_cg, stream_cg_close, stream_midx, stream_gate_refs, stream_reach):
         try:
             fn(ctx)
